@@ -410,15 +410,27 @@ class _Den:
             prev = v
 
     def _Pconst(self, total, pattern, tolerance=0.001):
+        from fractions import Fraction
+
+        def exact(x):
+            # decimal value of a literal: 0.1 means 1/10 (the tolerance exists to
+            # absorb the binary rounding of such sums)
+            return Fraction(repr(x)) if isinstance(x, float) else Fraction(x)
         acc = 0
+        acc_x = Fraction(0)
+        total_x = exact(total)
         for v in self.stream(pattern):
             nxt = acc + v
-            if nxt >= total:
+            nxt_x = acc_x + exact(v) if isinstance(v, (int, float)) and not isinstance(v, bool) else None
+            if nxt >= total or (nxt_x is not None and nxt_x >= total_x):
+                # reaching the sum exactly (in exact arithmetic) ends the stream
+                # there, whatever the binary rounding of the partial sums
                 yield total - acc
                 return
             if nxt > total - 2 * tolerance:
                 raise Unspecified('Pconst partial sum inside the tolerance band')
             acc = nxt
+            acc_x = nxt_x if nxt_x is not None else acc_x
             yield v
         # reading taken: the sum is constrained to `total` also when the
         # source ends early (class summary "constrain the sum of a value
